@@ -68,7 +68,7 @@ inline bool deser(const std::string &s, GPoly &p) {
         p.holes.push_back(h);
         from = a + 6;
     }
-    return p.outer.size() >= 3;
+    return true;  // an empty or degenerate outer loop is a legitimate (error-path) case of C17; C07/C15 discard it
 }
 
 // library view
